@@ -11,7 +11,7 @@ CLAIMED = {
                 "block budget vs SAMv1 §4.1 (rustc const-eval), staging-buffer ownership and min() bound, checked BSIZE/ISIZE "
                 "conversions, finalisation must-pass-through (flush, write_frame, EOF marker in finish/try_finish/Drop), and "
                 "reader integrity guards (CRC32, ISIZE, header, frame size), and the direct-read fast path leaving the block consumed (last-writer rule). Not the payload round trip itself.",
-        "note": "trusts zlib-rs deflate/inflate and std write_all/read_exact; decides shape, not values",
+        "note": "trusts zlib-rs deflate/inflate and std write_all/read_exact; decides shape, not values; R9 async poll_flush hands the split block to the sink before any Pending return",
         "technique": "static analysis: MIR must-pass-through + guard dominance + who-may-write + const relations (rustc_private driver)",
         "design_ref": "§5 C01",
     },
@@ -25,7 +25,7 @@ CLAIMED.update({
                 "guard of the read-N-or-EOF helpers (incl. cursor accumulation), LF/CR stripping of the line readers, CR of a CRLF split across two windows, copy-before-consume "
                 "in every copying scanner. Necessary conditions only: content "
                 "equality under every chunking is not decided.",
-        "note": "trusts std/tokio read_exact/read_until/BufReader contracts; known finding F6 (noodles-util autodetection) listed by exact key; genuine defect F16 (async FASTA CRLF across windows) found by R6 and repaired (fix: 981b297)",
+        "note": "trusts std/tokio read_exact/read_until/BufReader contracts; known finding F6 (noodles-util autodetection) listed by exact key; genuine defect F16 (async FASTA CRLF across windows) found by R6 and repaired (fix: 981b297); R9 keeps the latent CrcReader slip (digests the whole filled part) unreachable",
         "technique": "static analysis: call-site classification by natural loops, enclosing trait method and forward data flow of the returned slice (MIR)",
         "design_ref": "§5 C12",
     },
@@ -49,7 +49,7 @@ CLAIMED.update({
                 "writers of every position field, the paired-guard constant of the direct-read fast path, every emitted frame advancing the writer position by its size, "
                 "and every stamped block moving the reader's running position past it (all four reader variants). The reference-model "
                 "equality over histories and gzi boundary arithmetic are not decided.",
-        "note": "trusts inner Seek::seek; two genuine defects found by these rules were repaired (fix: commits 4ec97ac, 96ce989)",
+        "note": "trusts inner Seek::seek; two genuine defects found by these rules were repaired (fix: commits 4ec97ac, 96ce989); genuine defect F29 (async poll_seek answered a repeated request without seeking) repaired (fix: d58c4c8; rule R7); the gzi exact-hit seed (round 4) stays invisible (value-level)",
         "technique": "static analysis: must-pass-through typestate, guard dominance, who-may-write/who-may-call tables (MIR)",
         "design_ref": "§5 C02",
     },
@@ -75,7 +75,7 @@ CLAIMED.update({
                 "are discharged automatically, every other unwrap/index/slice/div/shift site is held against a frozen per-function "
                 "baseline that is explicitly not a claim of safety. Decides: no new panic-capable construct in decode-reachable code, "
                 "and the guards that keep lazy views safe. Does not decide loops, stack or allocation, nor the baseline sites themselves.",
-        "note": "baseline sites are undecided (evidence counts them); 23 known-finding keys (F5, F15) by exact key and multiplicity; seven read-side panics repaired (fix: 5f315e7, 393a12a, 205b072, 474c4ae, e6f4867, 3c0880c, 0fe9510)",
+        "note": "baseline sites are undecided (evidence counts them); 23 known-finding keys (F5, F15) by exact key and multiplicity; seven read-side panics repaired (fix: 5f315e7, 393a12a, 205b072, 474c4ae, e6f4867, 3c0880c, 0fe9510); genuine defect F30 (line readers stripped a CR of an earlier field: accessor panic on a record returned Ok) repaired (fix: bcc5e0d; rule P); rule L: fill_buf loops end at EOF",
         "technique": "static analysis: whole-workspace call graph with class-hierarchy expansion, panic-construct inventory on MIR, constant-folding discharge, ratchet against reviewed tables",
         "design_ref": "§5 C15",
     },
@@ -88,7 +88,7 @@ CLAIMED.update({
                 "a column encoded on write is decoded in every read view (eager, lazy, array iterators: callers of the shared decoder); "
                 "lone '.' escape present; Character values decoded by every reader that extracts a single character; variant span has one provided implementation; every success path of the parser resets each column of a reused "
                 "RecordBuf (samples tabled as not decided); line buffers are reset before each appended line. Value equality over the grammar is not decided.",
-        "note": "trusts the percent-encoding crate; delimiter harvest is by named constants with a floor; genuine defects F17 (per-window UTF-8 validation) and F18 (eager Character not decoded) repaired (fix: ee4ec0f, 1c67b13); two seeded changes of value-level kind are documented misses",
+        "note": "trusts the percent-encoding crate; delimiter harvest is by named constants with a floor; genuine defects F17 (per-window UTF-8 validation) and F18 (eager Character not decoded) repaired (fix: ee4ec0f, 1c67b13); two seeded changes of value-level kind are documented misses; R11 element-wise reset of the per-sample rows",
         "technique": "static analysis: evaluated AsciiSet constants vs spec table, HIR match-pattern sets, caller sets of encode/decode helpers, trait impl table",
         "design_ref": "§5 C09",
     },
@@ -120,7 +120,7 @@ CLAIMED.update({
                 "widths/endianness with multiplicity, constants, ErrorKinds, try_from type pairs, casts) must be equal modulo a frozen, "
                 "partly triaged difference table. Decides: no twin was edited alone (dropped validate/intersects/resolve, changed width, "
                 "endianness, magic or conversion), plus the stamp/position pairing of the async BGZF reader. Does not decide equality under every poll schedule, nor order of operations.",
-        "note": "the sync side is pinned by the unit tests; frozen differences are recorded behaviour, not claimed equivalent; a benign one-sided edit that adds a token is reported (documented precision limit)",
+        "note": "the sync side is pinned by the unit tests; frozen differences are recorded behaviour, not claimed equivalent; a benign one-sided edit that adds a token is reported (documented precision limit); genuine defect F29 repaired (fix: d58c4c8; rules R4 drained value vs Pending, R5 state machine)",
         "technique": "static analysis: Engler-style sibling cross-checking over resolved call regions and MIR token multisets",
         "design_ref": "§5 C16",
     },
@@ -133,7 +133,7 @@ CLAIMED.update({
                 "(CG tag on encode, resolve on decode, lazy view) by must-pass-through, confirmed writers of the raw record buffer with "
                 "validation on both read paths, dec∘enc = id exhaustively for the kind/type/subtype tables, reg2bin geometry constants, and the reused-destination rule: every success path of "
                 "decode() overwrites or clears each RecordBuf column; the length-prefix read loop advances its cursor and returns Ok only on nothing-or-everything. Whole-record equality and value boundaries are not decided.",
-        "note": "interval reasoning is dominance-based; three casts are tabled with reasons",
+        "note": "interval reasoning is dominance-based; three casts are tabled with reasons; R10 writer scratch buffer cleared before the fill",
         "technique": "static analysis: interval domain over MIR for casts, must-pass-through, who-may-write, HIR match-table agreement, evaluated constants",
         "design_ref": "§5 C05",
     },
@@ -147,7 +147,7 @@ CLAIMED.update({
                 "explicit panics in the encoder closure vs a triaged table, string-map lookups are error exits, the decoder overwrites every column of "
                 "the reused vcf RecordBuf, the per-type copies of the FORMAT value decoders agree on the guards under which a sample is missing. Record equality and "
                 "per-sample padding are not decided.",
-        "note": "one genuine defect (encoder todo!() on a missing INFO value) was repaired (fix: d137c9d)",
+        "note": "one genuine defect (encoder todo!() on a missing INFO value) was repaired (fix: d137c9d); R9 grow-only dictionary, R10 dictionary numbering order (writer collections vs header text)",
         "technique": "static analysis: interval domain with dominating guards over MIR, evaluated constants, HIR match-table agreement, panic inventory",
         "design_ref": "§5 C10",
     },
@@ -160,7 +160,7 @@ CLAIMED.update({
                 "container-header readers (sync and async) and the writer's CRC taken from its CrcWriter; dec∘enc = id for all CRAM code tables; "
                 "Encoder->CompressionMethod labelling; the 28 data series and the guard edges that dominate each accessor call agree between "
                 "slice reader and slice writer (guard signatures); AP delta symmetry; append-buffer discipline of the header/token readers. Record equality and codec correctness are not decided.",
-        "note": "trusts flate2 CRC and md5; symmetric read_x/write_x structure is floor-checked; three guard asymmetries are tabled with reasons",
+        "note": "trusts flate2 CRC and md5; symmetric read_x/write_x structure is floor-checked; three guard asymmetries are tabled with reasons; known finding F31 (quality-score-array flag set for QUAL * records: noodles' own output unreadable) by exact key (rule R9)",
         "technique": "static analysis: evaluated constants, guard dominance, HIR match-table agreement, guard-signature comparison of sibling codecs (MIR edge dominance)",
         "design_ref": "§5 C07",
     },
@@ -173,7 +173,7 @@ CLAIMED.update({
                 "position before and a position after the same record read (def-use); one span definition shared by indexer and filter; "
                 "add_record rejects unsorted input; unmapped queries filter per record (never by a prefix combinator); binned-index min_offset is a minimum over several bins; reg2bin (indexer) and reg2bins (query) agree on the coordinate convention (exactly one `- 1` on start/end before the shifts). The heart of C04 — bin assignment, "
                 "chunk merging and pruning for every layout x region — is coordinate arithmetic and is NOT decided.",
-        "note": "weak claim by design; a genuine completeness defect in the CSI min_offset (found by reading, not by a rule) was repaired (fix: 42bd27d) and R5 pins its necessary condition",
+        "note": "weak claim by design; a genuine completeness defect in the CSI min_offset (found by reading, not by a rule) was repaired (fix: 42bd27d) and R5 pins its necessary condition; R8 decides the unbounded-interval shortcut by a finite presence table (A11), rows with unmodelled constructs are not decided",
         "technique": "static analysis: edge dominance of the filter test over record-returning exits, def-use ordering of chunk bounds, trait impl table (MIR/HIR)",
         "design_ref": "§5 C04",
     },
@@ -182,7 +182,7 @@ CLAIMED.update({
                 "readers, read_exact for bodies, CRC/ISIZE/frame-size integrity guards of BGZF and CRAM on every success exit, CRAM Ok(0) only on "
                 "the is_eof edge dominated by the header CRC comparison, index readers without raw read() and with try_from-converted counts, "
                 "no untabled error-to-success conversion, the bgzf block loader returning a nonzero length only for a block it read. Prefix equality of what was yielded is not decided.",
-        "note": "the never-panics clause is C15's inventory; a BGZF file cut at a block boundary reads as a shorter clean stream by format design; genuine defects F25 (eager BCF reader: partial prefix = EOF, previously mis-triaged as safe by this suite) and F26 (bgzf direct read fabricated bytes at EOF) repaired (fix: abb968d, 24c37d2)",
+        "note": "the never-panics clause is C15's inventory; a BGZF file cut at a block boundary reads as a shorter clean stream by format design; genuine defects F25 (eager BCF reader: partial prefix = EOF, previously mis-triaged as safe by this suite) and F26 (bgzf direct read fabricated bytes at EOF) repaired (fix: abb968d, 24c37d2); R7 fill_buf loops have an emptiness-controlled exit (no hang on truncation)",
         "technique": "static analysis: guard dominance, call-site classification, Err-edge reachability (MIR)",
         "design_ref": "§5 C13",
     },
@@ -213,7 +213,7 @@ CLAIMED.update({
                 "compressed (HIR match-arm tables, alignment+variant, sync+async); detection window assumption (known finding F6); finish reaches "
                 "every arm and every generic writer has a finishing call dispatching to all arms; default compression; configuration plumbing: every field of every workspace Builder struct is read by a consumer (an option "
                 "stored by a setter cannot be silently ignored). Conversions are NOT decided.",
-        "note": "R2 found a genuine defect (swapped BCF writer arms), repaired (fix: 087a76d); the variant writers (sync and async) had no finishing call at all, repaired (fix: 34fcaac, 5e6a7ff; rule R4/no-finisher); F6 listed by exact keys",
+        "note": "R2 found a genuine defect (swapped BCF writer arms), repaired (fix: 087a76d); the variant writers (sync and async) had no finishing call at all, repaired (fix: 34fcaac, 5e6a7ff; rule R4/no-finisher); F6 listed by exact keys; R6 VCF->BCF dictionary order (shared with C10.R10)",
         "technique": "static analysis: HIR match-table agreement between sibling builders, evaluated constants, fill_buf window classification",
         "design_ref": "§5 C20",
     },
